@@ -94,6 +94,31 @@ func c08Chain() {
 	run.Extra["consensus_validated_sequences"] = len(order)
 }
 
+// c08UnknownThenKnown: a request naming a contract the host does not have yet (its id is predictable: the
+// renewal id) must change nothing - in particular it must not leave that id locked for when the contract
+// comes into existence.
+func c08UnknownThenKnown() {
+	for _, trusting := range []bool{false, true} {
+		w := newWorldWith(trusting)
+		w.Plant(1, types.Siacoins(100), types.Siacoins(50))
+		rid := w.Contract.ID.V2RenewalID()
+		for i := 0; i < 2; i++ {
+			if _, err := rhp.RPCLatestRevision(ctx, w.T, rid); err == nil {
+				run.Violate("c08:unknown-contract-served", "RPCLatestRevision for a contract the host does not have succeeded", nil)
+			}
+			w.T.WaitIdle()
+		}
+		w.MarkRenewed()
+		run.Add(1, 1, 1, 1)
+		_, err := rhp.RPCLatestRevision(ctx, w.T, rid)
+		w.T.WaitIdle()
+		if err != nil {
+			run.Violate("c08:failed-request-changed-state:unknown-contract-left-locked", fmt.Sprintf("[trusting contractor: %v] RPCLatestRevision(renewal id) before the renewal existed, then the renewal is recorded: RPCLatestRevision on the renewed contract fails: %v", trusting, err), map[string]any{"trusting": trusting})
+		}
+		w.Close()
+	}
+}
+
 // c08Concurrent: two revising RPCs on the same contract; every interleaving of their Contractor calls
 // (gated at the wrapping Contractor) is executed, with the reference try-lock contractor and with a
 // blocking-lock contractor.
